@@ -14,7 +14,10 @@ This private submodule is *not* intended for importation by downstream callers.
 
 # ....................{ IMPORTS                            }....................
 from beartype.door._cls.doorsuper import TypeHint
-from beartype.typing import Iterable
+from beartype.typing import (
+    Iterable,
+    List,
+)
 
 # ....................{ SUBCLASSES                         }....................
 class UnionTypeHint(TypeHint):
@@ -28,7 +31,21 @@ class UnionTypeHint(TypeHint):
     # ..................{ PRIVATE ~ properties               }..................
     @property
     def _branches(self) -> Iterable[TypeHint]:
-        return self._args_wrapped_tuple
+
+        # List of all branches of this union, flattening each child that is
+        # itself a union (e.g., a bounded or constrained type variable, which is
+        # semantically the union of its bound or constraints) into the branches
+        # of that child. Failing to do so would compare the other hint against
+        # that child union as a single opaque branch, which non-union hints
+        # cannot be subhints of.
+        branches: List[TypeHint] = []
+        for hint_child in self._args_wrapped_tuple:
+            if isinstance(hint_child, UnionTypeHint):
+                branches.extend(hint_child._branches)
+            else:
+                branches.append(hint_child)
+
+        return tuple(branches)
 
     # ..................{ PRIVATE ~ testers                  }..................
     def _is_subhint(self, other: TypeHint) -> bool:
